@@ -808,11 +808,11 @@ Lemma fold_header_app au rc r a b :
   fold_header au rc r (a ++ b) = fold_header au rc (fold_header au rc r a) b.
 Proof. apply fold_left_app. Qed.
 
-Lemma fold_header_nl au rc ls : forall r,
-  fold_header au rc r (map (fun l => l ++ nl) ls) = fold_header au rc r ls.
+Lemma fold_header_ws au rc w ls : forallb is_space w = true -> forall r,
+  fold_header au rc r (map (fun l => l ++ w) ls) = fold_header au rc r ls.
 Proof.
-  unfold fold_header. induction ls as [|l t IH]; intros r; [reflexivity|].
-  cbn [map fold_left]. rewrite IH. rewrite strip_nl_r by reflexivity. reflexivity.
+  intros Hw. unfold fold_header. induction ls as [|l t IH]; intros r; [reflexivity|].
+  cbn [map fold_left]. rewrite IH. rewrite strip_nl_r by exact Hw. reflexivity.
 Qed.
 
 Lemma lstrip_by_snoc f a z : f z = false -> lstrip_by f (a ++ [z]) = lstrip_by f a ++ [z].
@@ -1127,16 +1127,26 @@ Qed.
 Lemma set_c_ballots_self st : set_c_ballots st (c_prefs st) (c_mult st) = st.
 Proof. now destruct st. Qed.
 
-Lemma ballot_loop_lines mu S : forall st,
+Lemma ballot_of_line_strip l l' : strip l = strip l' -> ballot_of_line l = ballot_of_line l'.
+Proof. unfold ballot_of_line. now intros ->. Qed.
+
+Lemma ballot_text_ws_read mu w c b : forallb is_space w = true ->
+  ballot_of_line (ballot_text mu (c :: b) ++ w) = Ok (mult_of mu (c :: b), c :: b).
+Proof.
+  intros Hw. rewrite <- ballot_line_read. apply ballot_of_line_strip.
+  rewrite ballot_line_text. rewrite !strip_nl_r; [reflexivity|reflexivity|exact Hw].
+Qed.
+
+Lemma ballot_loop_lines mu w S : forallb is_space w = true -> forall st,
   Forall (fun b => b <> []) S -> NoDup S -> (forall b, In b S -> ~ In b (map fst (c_mult st))) ->
-  ballot_loop false st (map (fun b => ballot_text mu b ++ nl) S)
+  ballot_loop false st (map (fun b => ballot_text mu b ++ w) S)
   = Ok (set_c_ballots st (c_prefs st ++ S) (c_mult st ++ retable mu S)).
 Proof.
-  induction S as [|b S IH]; intros st NE ND FR.
+  intros Hw. induction S as [|b S IH]; intros st NE ND FR.
   - cbn [map ballot_loop retable]. rewrite !app_nil_r. now rewrite set_c_ballots_self.
   - inversion NE as [|? ? Hb NE']; subst. inversion ND as [|? ? Hnin ND']; subst.
-    cbn [map ballot_loop]. rewrite <- ballot_line_text.
-    destruct b as [|c b']; [now elim Hb|]. rewrite ballot_line_read. cbn [rbind].
+    cbn [map ballot_loop].
+    destruct b as [|c b']; [now elim Hb|]. rewrite ballot_text_ws_read by exact Hw. cbn [rbind].
     unfold add_ballot. rewrite assoc_set_ballot_fresh by (apply FR; now left).
     rewrite IH; [|exact NE'|exact ND'|].
     + f_equal. destruct st as [m nu nc cn pr M]. cbn [set_c_ballots c_prefs c_mult c_meta c_num_unique
@@ -1171,10 +1181,19 @@ Proof.
   destruct (N.eqb_spec 35 z) as [<-|]; [discriminate|reflexivity].
 Qed.
 
-Lemma all_lines_no_nlcr i : wf_cat i ->
-  forallb no_nlcr (header_lines i ++ map (ballot_text (c_mult i)) (sorted_prefs i)) = true.
+Lemma ballot_text_not_hash mu w c b : forallb is_space w = true ->
+  startswith hash_prefix (strip (ballot_text mu (c :: b) ++ w)) = false.
 Proof.
-  intros W. apply forallb_no_nlcr. unfold header_lines. rewrite !forallb_app.
+  intros Hw. rewrite strip_nl_r by exact Hw. rewrite <- (strip_nl_r _ nl) by reflexivity.
+  rewrite <- ballot_line_text. apply ballot_line_not_hash.
+Qed.
+
+Definition file_lines (i : cinst) : list text :=
+  header_lines i ++ map (ballot_text (c_mult i)) (sorted_prefs i).
+
+Lemma all_lines_no_break i : wf_cat i -> forallb no_break (file_lines i) = true.
+Proof.
+  intros W. unfold file_lines, header_lines. rewrite !forallb_app.
   rewrite meta_lines_no_break by apply (wf_meta i W). rewrite count_lines_no_break.
   destruct (wf_cats i W) as [CF _]. destruct (wf_alts i W) as [AF _].
   unfold cat_name_lines. rewrite name_lines_no_break by (reflexivity || exact CF).
@@ -1186,36 +1205,143 @@ Proof.
   destruct b as [|c b']; [now elim NE|]. apply ballot_text_no_break.
 Qed.
 
+(* the header loop on the lines of a written file (each followed by the same whitespace: a newline for readlines,
+   nothing for splitlines): it rebuilds everything but the ballots and stops at the first ballot line *)
+Lemma header_loop_file w i : forallb is_space w = true -> wf_cat i ->
+  header_loop false [] start_inst (map (fun l => l ++ w) (file_lines i))
+  = Ok (set_c_ballots i [] [], map (fun b => ballot_text (c_mult i) b ++ w) (sorted_prefs i)).
+Proof.
+  intros Hw W. unfold file_lines. rewrite map_app, map_map.
+  set (mu := c_mult i). remember (sorted_prefs i) as S eqn:ES.
+  assert (PS : Permutation (c_prefs i) S) by (rewrite ES; apply sorted_prefs_perm).
+  assert (NES : Forall (fun b => b <> []) S).
+  { eapply Permutation_Forall; [exact PS|now apply wf_ballots_nonempty]. }
+  destruct S as [|s S'].
+  { exfalso. apply (wf_some_ballot i W). now apply Permutation_nil, Permutation_sym. }
+  rewrite (header_loop_app false [] _ start_inst (set_c_ballots i [] [])).
+  2:{ discriminate. }
+  2:{ apply Forall_forall. intros l Hl. apply in_map_iff in Hl as [l0 [<- Hl0]].
+      pose proof (header_lines_hash i) as F. rewrite Forall_forall in F. destruct (F l0 Hl0) as [r ->].
+      now exists (r ++ w). }
+  2:{ rewrite fold_header_ws by exact Hw. now apply fold_header_all. }
+  inversion NES as [|? ? Hs _]; subst. destruct s as [|c s']; [now elim Hs|].
+  cbn [map]. now rewrite header_loop_stop by (now apply ballot_text_not_hash).
+Qed.
+
+Theorem roundtrip_lines w i : forallb is_space w = true -> wf_cat i ->
+  cat_parse false false (meta0 (lit "cat")) (map (fun l => l ++ w) (file_lines i)) = Ok (sorted_view i).
+Proof.
+  intros Hw W.
+  unfold cat_parse. change (teqb (data_type (meta0 (lit "cat"))) (lit "cat")) with true. cbv iota.
+  unfold cat_parse_body. fold start_inst. rewrite header_loop_file by assumption. cbn [rbind].
+  assert (PS : Permutation (c_prefs i) (sorted_prefs i)) by apply sorted_prefs_perm.
+  assert (NES : Forall (fun b => b <> []) (sorted_prefs i)).
+  { eapply Permutation_Forall; [exact PS|now apply wf_ballots_nonempty]. }
+  assert (NDS : NoDup (sorted_prefs i)) by (eapply Permutation_NoDup; [exact PS|apply (wf_nodup i W)]).
+  assert (FR : forall b, In b (sorted_prefs i) -> ~ In b (map fst (c_mult (set_c_ballots i [] [])))).
+  { intros b _ []. }
+  rewrite (ballot_loop_lines (c_mult i) w (sorted_prefs i) Hw _ NES NDS FR).
+  reflexivity.
+Qed.
+
+(* header_only=True on the same lines: everything but the ballots (used by C10) *)
+Theorem header_only_lines w i : forallb is_space w = true -> wf_cat i ->
+  cat_parse false true (meta0 (lit "cat")) (map (fun l => l ++ w) (file_lines i)) = Ok (set_c_ballots i [] []).
+Proof.
+  intros Hw W.
+  unfold cat_parse. change (teqb (data_type (meta0 (lit "cat"))) (lit "cat")) with true. cbv iota.
+  unfold cat_parse_body. fold start_inst. now rewrite header_loop_file by assumption.
+Qed.
+
 (* C08_roundtrip: parse_file (readlines) of the written file gives back the instance, ballots in file order *)
 Theorem roundtrip_readlines i : wf_cat i ->
   cat_parse false false (meta0 (lit "cat")) (readlines (cat_write i)) = Ok (sorted_view i).
 Proof.
-  intros W. rewrite cat_write_lines. rewrite readlines_unlines by (now apply all_lines_no_nlcr).
-  rewrite map_app, map_map.
-  set (mu := c_mult i). remember (sorted_prefs i) as S eqn:ES.
-  unfold cat_parse. change (teqb (data_type (meta0 (lit "cat"))) (lit "cat")) with true. cbv iota.
-  unfold cat_parse_body. fold start_inst.
-  (* facts about the sorted ballot list *)
-  assert (PS : Permutation (c_prefs i) S) by (rewrite ES; apply sorted_prefs_perm).
-  assert (NES : Forall (fun b => b <> []) S).
-  { eapply Permutation_Forall; [exact PS|now apply wf_ballots_nonempty]. }
-  assert (NDS : NoDup S) by (eapply Permutation_NoDup; [exact PS|apply (wf_nodup i W)]).
-  destruct S as [|s S'].
-  { exfalso. apply (wf_some_ballot i W). now apply Permutation_nil, Permutation_sym. }
-  (* header *)
-  rewrite (header_loop_app false [] _ start_inst (set_c_ballots i [] [])).
-  2:{ discriminate. }
-  2:{ apply Forall_forall. intros l Hl. apply in_map_iff in Hl as [l0 [<- Hl0]]. apply hash_line_nl.
-      pose proof (header_lines_hash i) as F. rewrite Forall_forall in F. now apply F. }
-  2:{ rewrite fold_header_nl. now apply fold_header_all. }
-  (* first ballot line stops the header loop *)
-  inversion NES as [|? ? Hs _]; subst. destruct s as [|c s']; [now elim Hs|].
-  cbn [map]. rewrite header_loop_stop by (rewrite <- ballot_line_text; apply ballot_line_not_hash).
-  cbn [rbind].
-  (* ballots *)
-  change ((ballot_text mu (c :: s') ++ nl) :: map (fun b => ballot_text mu b ++ nl) S')
-    with (map (fun b => ballot_text mu b ++ nl) ((c :: s') :: S')).
-  rewrite ballot_loop_lines; [|exact NES|exact NDS|intros b _ []].
-  cbn [rmap]. f_equal. unfold sorted_view. fold mu. fold (retable mu (sorted_prefs i)). rewrite <- ES.
-  now destruct i.
+  intros W. rewrite cat_write_lines. fold (file_lines i).
+  rewrite readlines_unlines by (apply forallb_no_nlcr; now apply all_lines_no_break).
+  now apply (roundtrip_lines nl).
 Qed.
+
+(* the same through parse_str (splitlines) *)
+Theorem roundtrip_splitlines i : wf_cat i ->
+  cat_parse false false (meta0 (lit "cat")) (splitlines (cat_write i)) = Ok (sorted_view i).
+Proof.
+  intros W. rewrite cat_write_lines. fold (file_lines i).
+  rewrite splitlines_unlines by (now apply all_lines_no_break).
+  assert (E : map (fun l : text => l ++ []) (file_lines i) = file_lines i).
+  { rewrite <- (map_id (file_lines i)) at 2. apply map_ext. intros l. apply app_nil_r. }
+  rewrite <- E. now apply (roundtrip_lines []).
+Qed.
+
+(* ================================================================================================ *)
+(* E. what sorted_view keeps; statements about the parsed file                                      *)
+(* ================================================================================================ *)
+Lemma mult_of_cons_neq b k r x : x <> b -> mult_of ((b, k) :: r) x = mult_of r x.
+Proof. intros H. unfold mult_of. cbn [assoc_get]. now rewrite ballot_eqb_neq. Qed.
+
+Lemma retable_self mu : NoDup (map fst mu) -> retable mu (map fst mu) = mu.
+Proof.
+  induction mu as [|[b k] r IH]; intros ND; [reflexivity|]. inversion ND as [|? ? Hnin ND']; subst.
+  cbn [map fst retable]. f_equal.
+  - unfold mult_of. cbn [assoc_get]. now rewrite ballot_eqb_refl.
+  - rewrite <- (IH ND') at 2. unfold retable. apply map_ext_in. intros x Hx. f_equal.
+    apply mult_of_cons_neq. intros ->. contradiction.
+Qed.
+
+(* the sorted view holds the same table (as a dict), the same ballots (as a multiset), everything else equal *)
+Theorem sorted_view_same i : wf_cat i ->
+  c_meta (sorted_view i) = c_meta i /\ c_num_unique (sorted_view i) = c_num_unique i /\
+  c_num_categories (sorted_view i) = c_num_categories i /\ c_cat_names (sorted_view i) = c_cat_names i /\
+  Permutation (c_prefs i) (c_prefs (sorted_view i)) /\
+  Permutation (c_mult i) (c_mult (sorted_view i)) /\
+  (forall b, mult_of (c_mult (sorted_view i)) b = mult_of (c_mult i) b).
+Proof.
+  intros W. repeat split; try reflexivity.
+  - apply sorted_prefs_perm.
+  - rewrite sorted_view_mult. rewrite <- (retable_self (c_mult i)) at 1.
+    + unfold retable. apply Permutation_map. rewrite (wf_keys i W). apply sorted_prefs_perm.
+    + rewrite (wf_keys i W). apply (wf_nodup i W).
+  - intros b. rewrite sorted_view_mult.
+    destruct (in_dec (list_eq_dec (list_eq_dec N.eq_dec)) b (sorted_prefs i)) as [Hin|Hnin].
+    + now apply mult_of_retable.
+    + (* not a ballot of the instance: absent from both tables *)
+      assert (A : forall M, ~ In b (map fst M) -> mult_of M b = 0%N).
+      { intros M. unfold mult_of. induction M as [|[b' k'] r IH]; intros H; [reflexivity|]. cbn [assoc_get].
+        rewrite ballot_eqb_neq; [apply IH|]; intros E; apply H; [now right|now left]. }
+      rewrite !A; [reflexivity| |].
+      * rewrite (wf_keys i W). intros Hin. apply Hnin.
+        eapply Permutation_in; [apply sorted_prefs_perm|exact Hin].
+      * unfold retable. rewrite map_map. cbn [fst]. now rewrite map_id.
+Qed.
+
+Lemma sorted_view_non_increasing i : mult_non_increasing (c_mult (sorted_view i)) (c_prefs (sorted_view i)).
+Proof.
+  rewrite sorted_view_mult, sorted_view_prefs. unfold mult_non_increasing.
+  eapply StronglySorted_ext_in; [|apply sorted_prefs_non_increasing].
+  intros x y Hx Hy H. cbv beta in *. now rewrite !mult_of_retable.
+Qed.
+
+(* ================================================================================================ *)
+(* F. a ballot with ZERO categories (outside the quantifier, recorded because the code accepts it)  *)
+(* ================================================================================================ *)
+(* write prints "<mult>: " + newline; the reader strips it to "<mult>:", splits it into the multiplicity and
+   the empty string, and builds the empty tuple: the line is read back as well *)
+Lemma ballot_line_read_zero mu : ballot_of_line (ballot_line mu []) = Ok (mult_of mu [], []).
+Proof.
+  unfold ballot_of_line, ballot_line. set (m := mult_of mu []).
+  change (strip_chars (lit ", ") (pref_str [])) with (@nil N).
+  replace (show_N m ++ lit ": " ++ [] ++ nl) with ((show_N m ++ [58%N]) ++ [32%N; 10%N])
+    by (now rewrite <- app_assoc).
+  rewrite strip_nl_r by reflexivity.
+  assert (S : strip (show_N m ++ [58%N]) = show_N m ++ [58%N]).
+  { unfold strip. rewrite <- (app_nil_r (show_N m ++ [58%N])) at 1. apply strip_by_keep; [| |reflexivity].
+    - destruct (show_N_starts m) as [z [t1 [E H]]]. exists z, (t1 ++ [58%N]). rewrite E. split; [reflexivity|].
+      now apply good_start_not_space.
+    - exists (show_N m), 58%N. split; reflexivity. }
+  rewrite S. rewrite remove_sp_app, remove_sp_show. change (remove_sp [58%N]) with [58%N].
+  rewrite split_on_app. rewrite (split_on_none 58 (show_N m)) by (now apply show_N_lacks).
+  cbn [split_on app]. rewrite py_int_show_N. reflexivity.
+Qed.
+
+Theorem ballot_line_read_any mu b : ballot_of_line (ballot_line mu b) = Ok (mult_of mu b, b).
+Proof. destruct b as [|c b]; [apply ballot_line_read_zero|apply ballot_line_read]. Qed.
